@@ -46,7 +46,11 @@ VALID = c03.VALID + [
 ]
 INVALID = ['1 ? 2', '1 +', ')', "'abc", '1 2', '[1', 'f(', '$ $', '1 + * 2',
            '?', '__x', 'a b', '{', "1 + '\\xzz'", 'f(1,', ']', '1 =>',
-           '$.in 5', '$.or 1 2 + 3', 'a.and b c', "'\\777' 1", 'not.x 1 2']
+           '$.in 5', '$.or 1 2 + 3', 'a.and b c', "'\\777' 1", 'not.x 1 2',
+           # a word operator glued to the parenthesis of its right operand
+           # reads as a call of a function of that name
+           '$a and($b or $c)', '7 mod(4)', 'x or(not y)', '1 in([1])',
+           'len(x) and(1)']
 SHORT = ['1', '[1]', '$', 'a', 'f()', '1 + 2', '$.x', '[1, 2]', 'a.b',
          'not 1', '-1', 'f(1)', "'s'", '$[0]', '1 ?', ')', '1 2', '1 +',
          '[1', "'abc", '?',
